@@ -23,6 +23,11 @@
 //	torndel id cut      same for the tombstone entry of DeleteSeriesID -> IsDeleted(id) afterwards
 //	allids              SeriesID of every key seen so far      -> k=id,…
 //	allkeys             SeriesKey of every id ever returned    -> id=hex|nil,…
+//	smallseg id         (fresh file only) replace the empty segment 0000 of every partition by the empty
+//	                    segment `id`; SeriesSegmentSize(0xfff0+k) = 64<<k bytes, so the log rolls over
+//	                    to further segments after a few entries                      -> ok
+//	hdrseg p            a header-only newest segment appears in partition p (what a create leaves that
+//	                    dies right after createSegment), then reopen                 -> ok
 //	state p             seq maxSeriesID maxOffset onDisk inMem tombstones
 //	dump p              flag:id:offset:key,… of the partition's segments
 package main
@@ -31,6 +36,7 @@ import (
 	"encoding/binary"
 	"fmt"
 	"os"
+	"path/filepath"
 	"strconv"
 	"strings"
 	"time"
@@ -136,6 +142,20 @@ func (r *runner) waitCompactions() {
 			time.Sleep(200 * time.Microsecond)
 		}
 	}
+}
+
+// fresh: nothing was ever written (one empty segment 0000 per partition, no index file).
+func (r *runner) fresh() bool {
+	for _, p := range r.sf.Partitions() {
+		segs := p.Segments()
+		if len(segs) != 1 || segs[0].ID() != 0 || segs[0].Size() != tsdb.SeriesSegmentHeaderSize {
+			return false
+		}
+		if _, err := os.Stat(p.IndexPath()); err == nil {
+			return false
+		}
+	}
+	return true
 }
 
 func (r *runner) see(k keyTok) {
@@ -345,6 +365,48 @@ func (r *runner) Op(t []string) (ans string) {
 		tear(path, size0+cut, size1)
 		r.open()
 		return h.B(r.sf.IsDeleted(id))
+	case t[0] == "smallseg" && len(t) == 2:
+		id := atoi(t[1])
+		if id < 0 || id > 0xffff {
+			return "bad-op"
+		}
+		if !r.fresh() {
+			return "bad-op"
+		}
+		if err := r.sf.Close(); err != nil {
+			return "err-close"
+		}
+		for i := 0; i < tsdb.SeriesFilePartitionN; i++ {
+			dir := r.sf.SeriesPartitionPath(i)
+			if err := os.Remove(filepath.Join(dir, "0000")); err != nil {
+				return "err-remove"
+			}
+			seg, err := tsdb.CreateSeriesSegment(uint16(id), filepath.Join(dir, fmt.Sprintf("%04x", id)))
+			if err != nil {
+				return "err-create"
+			}
+			seg.Close()
+		}
+		r.open()
+		return "ok"
+	case t[0] == "hdrseg" && len(t) == 2:
+		pi := int(atoi(t[1]))
+		if pi < 0 || pi >= tsdb.SeriesFilePartitionN {
+			return "bad-op"
+		}
+		segs := r.sf.Partitions()[pi].Segments()
+		next := segs[len(segs)-1].ID() + 1
+		dir := r.sf.SeriesPartitionPath(pi)
+		if err := r.sf.Close(); err != nil {
+			return "err-close"
+		}
+		seg, err := tsdb.CreateSeriesSegment(next, filepath.Join(dir, fmt.Sprintf("%04x", next)))
+		if err != nil {
+			return "err-create"
+		}
+		seg.Close()
+		r.open()
+		return "ok"
 	case t[0] == "allids" && len(t) == 1:
 		ss := make([]string, len(r.seenKeys))
 		for i, k := range r.seenKeys {
@@ -586,6 +648,64 @@ func genBigPartition(r *h.Rand, p int) []string {
 	return ops
 }
 
+// genRoll: tiny segments (64..256 bytes first, doubling), so that the log of a partition rolls
+// over to new segments every few entries: creates, deletes (a tombstone can be the entry that
+// rolls over), reopen, index compaction, and header-only newest segments (crashed roll-over).
+func genRoll(r *h.Rand, nops int) []string {
+	var pool []keyTok
+	for i := 0; len(pool) < 10+r.Intn(25); i++ {
+		pool = append(pool, mkKey(fmt.Sprintf("r%d", i)))
+	}
+	ops := []string{fmt.Sprintf("smallseg %d", 0xfff0+r.Intn(3))}
+	if r.Chance(0.4) {
+		ops = append(ops, fmt.Sprintf("threshold %d", h.Pick(r, []int{0, 2, 3, 5})))
+	}
+	batch := func() string {
+		n := 1 + r.Intn(4)
+		ss := make([]string, n)
+		for i := range ss {
+			ss[i] = h.Pick(r, pool).tok()
+		}
+		return strings.Join(ss, ",")
+	}
+	for i := 0; i < nops; i++ {
+		x := r.Intn(100)
+		switch {
+		case x < 34:
+			ops = append(ops, "create "+batch())
+		case x < 48:
+			ops = append(ops, "delkey "+h.Pick(r, pool).tok())
+		case x < 50:
+			ops = append(ops, fmt.Sprintf("delete %d", r.Range(1, 80)))
+		case x < 56:
+			ops = append(ops, "id "+h.Pick(r, pool).tok())
+		case x < 60:
+			ops = append(ops, fmt.Sprintf("key %d", r.Range(0, 80)))
+		case x < 70:
+			ops = append(ops, "reopen")
+		case x < 75:
+			ops = append(ops, fmt.Sprintf("compact %d", r.Intn(8)))
+		case x < 81:
+			ops = append(ops, "allids")
+		case x < 86:
+			ops = append(ops, "allkeys")
+		case x < 89:
+			ops = append(ops, fmt.Sprintf("state %d", r.Intn(8)))
+		case x < 93:
+			ops = append(ops, fmt.Sprintf("dump %d", r.Intn(8)))
+		default:
+			// crashed roll-over in the partition of some key, then series are created there
+			k := h.Pick(r, pool)
+			ops = append(ops, fmt.Sprintf("hdrseg %d", k.part), "create "+k.tok()+","+batch(), "allids", "allkeys")
+		}
+	}
+	ops = append(ops, "allids", "allkeys", "reopen", "create "+batch(), "allids", "allkeys")
+	for p := 0; p < 8; p++ {
+		ops = append(ops, fmt.Sprintf("state %d", p), fmt.Sprintf("dump %d", p))
+	}
+	return ops
+}
+
 // genNulCollision: a series whose name ends in NUL exists; creating a series whose key
 // differs only in that byte is torn exactly before it.
 func genNulCollision(r *h.Rand) []string {
@@ -634,8 +754,9 @@ func gen(r *h.Rand, tier string, emit func([]string)) {
 		if i%8 == 3 {
 			emit(genNulCollision(r))
 		}
+		emit(genRoll(r, 30+r.Intn(40)))
 	}
-	emit([]string{"create", "create zz", "create 6161", "create 6161:9", "id 61:1 x", "key x", "delete -1", "torn 6161:1", "state 9", "reopen", "allids"})
+	emit([]string{"create", "create zz", "create 6161", "create 6161:9", "id 61:1 x", "key x", "delete -1", "torn 6161:1", "state 9", "reopen", "smallseg 70000", "hdrseg 8", "allids"})
 }
 
 func main() { h.Main(h.Harness{Gen: gen, NewCase: newCase, OpTimeout: 60 * time.Second}) }
